@@ -20,7 +20,8 @@ ASSUMPTIONS = ["liveness is restated as bounded progress; a watchdog timeout wit
                "g++-12 -O1 build of the working tree with harness-side shims"]
 FLOORS = {"timer_evaluations": {"quick": 1500, "thorough": 30000}, "requests_honoured": {"quick": 1200, "thorough": 25000},
           "stops_checked": {"quick": 40, "thorough": 800}, "stops_while_waiting": {"quick": 15, "thorough": 300},
-          "due_alarms": {"quick": 30, "thorough": 500}, "lagging_runs": {"quick": 20, "thorough": 400}}
+          "due_alarms": {"quick": 30, "thorough": 500}, "lagging_runs": {"quick": 20, "thorough": 400},
+          "pushes_while_waiting_checked": {"quick": 300, "thorough": 5000}}
 
 
 def gen(rng, k, seed):
@@ -50,7 +51,25 @@ def gen(rng, k, seed):
     return Scenario(f"c17_{seed}_{k}", kv)
 
 
+def gen_push(rng, k, seed):
+    """'a value pushed while the loop is waiting is never missed': sparse producers (the loop goes back to its wait between
+    sends) on small bounded queues with blocking and non-blocking sends - decided by the C16 history checker."""
+    from . import c16
+    sc = c16.gen(rng, k, seed)
+    sc.name = f"c17_{seed}_p{k}"
+    sc.kv.update(policy=rng.choice(["queue", "queue", "burst"]), cap=rng.choice([1, 1, 2]), blocking=rng.choice([1, 1, 0]),
+                 producers=rng.choice([1, 2, 3]), msgs=rng.choice([20, 40, 80]), pacing=rng.choice(["sleep:200", "sleep:20", "rand", "yield"]),
+                 stop="drain")
+    sc.kv["delegate"] = "c16"
+    return sc
+
+
 def check(sc, tr, rc):
+    if sc.kv.get("delegate") == "c16":
+        from . import c16
+        V, C, verdict = c16.check(sc, tr, rc)
+        return V, {"pushes_while_waiting_checked": C.get("sends_while_loop_waiting", 0), "push_deliveries_checked": C.get("deliveries_checked", 0),
+                   "_known": []}, verdict
     V, C = [], {}
     kv = sc.kv
     end_us = int(kv["end_ms"]) * 1000
@@ -136,7 +155,11 @@ def check(sc, tr, rc):
     C["due_alarms"] = due_alarms
     C["lagging_runs"] = 1 if past_us > 0 and T else 0
     # stop: at most one further cycle begins after request_stop() returned, and run() returns
-    if tr.stop:
+    if tr.stop and tr.stop[0] < tr.run[0]:
+        # on a loaded machine the controller thread can call request_stop() before the main thread has entered run(): the
+        # property is about stopping a run in progress, so such a scenario says nothing about it
+        C["stops_before_run_entered"] = 1
+    elif tr.stop:
         C["stops_checked"] = 1
         later = sorted({t[1] for t in T if t[3] > stop_ret})
         if len(later) > 1:
@@ -171,7 +194,7 @@ def main(tier, seed, replay):
         rp = json.load(open(replay))
         scs = [Scenario(rp["scenario"]["name"], rp["scenario"]["kv"])]
     else:
-        scs = [gen(rng, k, seed) for k in range(n)]
+        scs = [gen(rng, k, seed) for k in range(n)] + [gen_push(rng, k, seed) for k in range(n // 5)]
     results = run_scenarios(exe, scs, f"C17.{tier}.{seed}", workers=6 if tier == "quick" else 8, timeout=30)
     counters, hard, inconc = {}, [], []
     nontriv, samples = set(), []
